@@ -162,8 +162,13 @@ func DataFrames(id uint32, body []byte, chunks, pads []int, end bool) [][]byte {
 		i++
 	}
 	rest := body
-	for guard := 0; len(rest) > 0 && guard < 100000; guard++ {
+	for len(rest) > 0 {
 		n := 16384 - 256
+		if len(frames) >= 20000 {
+			// enough tiny frames: the remainder goes out in full-size ones, so
+			// the body is always complete
+			chunks = nil
+		}
 		if len(chunks) > 0 {
 			n = chunks[i%len(chunks)]
 		}
